@@ -364,7 +364,7 @@ func (m *machine) finish(outcome string) {
 	if len(res.Samples) < 5 || (m.sampleWanted && len(res.Samples) < 12) {
 		res.Samples = append(res.Samples, PathSample{Decisions: len(m.trace), Steps: m.steps, Outcome: outcome, Values: m.lastModel, Observed: m.observedStr()})
 	}
-	if m.validation != nil && len(res.Validation) < 64 {
+	if m.validation != nil && !m.hadKnown && len(res.Validation) < 64 {
 		res.Validation = append(res.Validation, *m.validation)
 	}
 }
@@ -747,6 +747,7 @@ func (m *machine) violated(tag, negTerm, detail string) (isNew bool) {
 		}
 	}
 	if len(cands) > 0 {
+		m.hadKnown = true
 		if residual == "false" {
 			return false
 		}
